@@ -1,0 +1,38 @@
+//go:build verif
+
+package registry
+
+// Contracts for gocv (contract-based deductive verification, /verif).
+
+// ---- the registration order is part of the on-disk format (C07) --------------------------------------
+// The encoder numbers its CBOR tags by registration order: position k in this list IS the tag every
+// stored value of that type carries (transactions 0-4 and classes 5-6 in the block and class buckets of
+// every existing database, trie-database nodes and journals, the consensus log's entries). The list is
+// append-only: each position keeps its type, and every position is registered, once, by the one loop
+// over the list.
+//@ extern func reflect.TypeOf
+//@   logged as TypeOfCall
+//@ extern func github.com/NethermindEth/juno/encoder.RegisterType
+//@   logged as Register
+//@ extern func sync.(*Once).Do
+//@ func init#1$1
+//@   props C07
+//@   arith int
+//@   nosafe
+//@   modifies *
+//@   assigns calls_TypeOfCall, arg_TypeOfCall_i, calls_Register, arg_Register_rType
+//@   callsite TypeOf@1: tag_0: istype($0, core.DeclareTransaction)
+//@   callsite TypeOf@2: tag_1: istype($0, core.DeployTransaction)
+//@   callsite TypeOf@3: tag_2: istype($0, core.InvokeTransaction)
+//@   callsite TypeOf@4: tag_3: istype($0, core.L1HandlerTransaction)
+//@   callsite TypeOf@5: tag_4: istype($0, core.DeployAccountTransaction)
+//@   callsite TypeOf@6: tag_5: istype($0, core.DeprecatedCairoClass)
+//@   callsite TypeOf@7: tag_6: istype($0, core.SierraClass)
+//@   callsite TypeOf@8: tag_7: istype($0, trienode.DeletedNode)
+//@   callsite TypeOf@9: tag_8: istype($0, trienode.LeafNode)
+//@   callsite TypeOf@10: tag_9: istype($0, trienode.NonLeafNode)
+//@   callsite TypeOf@11: tag_10: istype($0, pathdb.JournalNodeSet)
+//@   callsite TypeOf@12: tag_11: istype($0, pathdb.DiffJournal)
+//@   callsite TypeOf@13: tag_12: istype($0, pathdb.DiskJournal)
+//@   callsite TypeOf@14: tag_13: istype($0, pathdb.DBJournal)
+//@   loop 1: invariant one_registration_per_position: calls_Register == old(calls_Register) + rangeindex + 1 && rangeindex + 1 <= len(types)
